@@ -3,6 +3,7 @@
 # `ingress-controller`: the real `list --focusworkload W` against the real unfocused `list`, related by a Coq-evaluated
 # checker (focus_filter_b); nothing matching => empty result + warning, never an error; formats on a sample.
 import os, subprocess
+from . import c08, c10
 from .lib import core, gen, listcorr, meta, fmt
 from .lib.core import cstr, cnat, clist
 
@@ -43,7 +44,7 @@ def main(tier):
     try:
         shard, k = 50, 0
         while k < n and len(run.violations) < 3:
-            cmds, meta_ = [], []
+            cmds, meta_, dotcmds, dotmeta = [], [], [], []
             for i in range(min(shard, n - k)):
                 cid = k + i
                 W = gen.gen_world(run.rng, anp=(cid % 4 == 0))
@@ -57,6 +58,12 @@ def main(tier):
                 if len(W['workloads']) >= 2 and run.rng.random() < 0.5:
                     a, b_ = run.rng.sample(W['workloads'], 2)
                     b_['name'] = run.rng.choice(['x', 'asset-', 'a']) + a['name']     # one name is a proper suffix of another
+                if run.rng.random() < 0.4:
+                    # Services / Ingresses / Routes: the {ingress-controller} lines are filtered by their target like any other entry
+                    for w in W['workloads']:
+                        if not w['ports']:
+                            w['ports'].append({'port': run.rng.choice(gen.PORTS), 'proto': 'TCP', 'name': ''})
+                    W['others'] = c08.dedupe_named([c10.manifest(o) for o in c10.gen_ingress_objs(run.rng, W)])
                 dl = gen.docs(W)
                 d = h.dir_for('c%d' % cid)
                 gen.write_dir(d, [m for m, _ in dl])
@@ -72,12 +79,35 @@ def main(tier):
                 focuses += [run.rng.choice(['nosuch', 'ns1/nosuch', 'w0x']), 'ingress-controller',
                             anyname[1:] if len(anyname) > 1 else 'zz', anyname[:-1] if len(anyname) > 1 else 'zz',   # proper suffix / prefix of a present name
                             run.rng.choice(bare).upper(),                 # the same letters in another case: names are case sensitive
-                            'default/' + run.rng.choice(bare)]            # namespace/name with the default namespace spelled out
+                            'default/' + run.rng.choice(bare),            # namespace/name with the default namespace spelled out
+                            run.rng.choice(sorted(x for x in names if '/' in x)) + run.rng.choice(['/', '/v2'])]   # more than one slash names nothing
                 cmds.append({'id': 'f%d' % cid, 'cmd': 'list', 'dir': d})
                 for f in focuses:
                     cmds.append({'id': '%d:%s' % (cid, f), 'cmd': 'list', 'dir': d, 'focus': f})
+                # the dot output under focus (it is drawn from the focused peers list): same edges as the focused report
+                dotf = ['ingress-controller', focuses[0]]
+                for f in dotf:
+                    dotcmds.append({'id': 'dot', 'cmd': 'list', 'dir': d, 'focus': f, 'format': 'dot', 'want_out': True})
+                dotmeta.append((cid, W, dl, dotf))
                 meta_.append((cid, W, dl, focuses, d))
             outs = h.run(cmds)
+            douts = h.run(dotcmds)
+            dpos = 0
+            for cid, W, dl, dotf in dotmeta:
+                for f in dotf:
+                    o = douts[dpos]; dpos += 1
+                    run.dist('dot-under-focus')
+                    if o['outcome'] != 'ok' or o.get('out_err'):
+                        continue
+                    try:
+                        rows = fmt.LIST_PARSERS['dot'](o.get('out', ''))
+                    except Exception as ex:
+                        rows = ['unparsable: %s' % ex]
+                    if rows != fmt.api_rows(o):
+                        run.report(None, 'dotfocus-%d' % cid, {'kind': 'focus-dot', 'focus': f, 'world': W, 'manifests': [m for m, _ in dl], 'output': o.get('out'),
+                                                              'api_rows': fmt.api_rows(o), 'parsed_rows': rows},
+                                   'the dot output of list --focusworkload does not hold exactly the entries of the focused report')
+                        break
             pos = 0
             cases, info = [], {}
             for cid, W, dl, focuses, d_ in meta_:
@@ -113,6 +143,13 @@ def main(tier):
                         matching = matching + [p for p in ['{ingress-controller}'] if any(e['src'] == p for e in full['conns'])]
                     if of['outcome'] != 'ok':
                         run.report(None, 'err-%d' % key, dict(payload, error=of.get('err')), 'focused list fails where the unfocused list succeeds')
+                        continue
+                    if not matching and f == 'ingress-controller' and W.get('others'):
+                        # with Services/Ingresses/Routes in the input the ingress-controller pod exists even when it reaches nothing:
+                        # an empty result without a warning is right then (and whether the analyzer counts as non-empty is its business)
+                        run.dist('focus:ingress-controller-without-lines')
+                        if of['conns']:
+                            run.report(None, 'absent-%d' % key, dict(payload, observed=of), 'entries reported for a focus that matches nothing')
                         continue
                     if not matching:
                         run.dist('focus:absent')
